@@ -19,9 +19,12 @@ CLAIMED = {
          "text, evaluated with the stub's own names, is that type - is evaluated on every generated stub, not proved. The check runs "
          "generated programs under monkeytype.trace into a real SQLiteStore, runs `stub` through cli.main for k x rewriter x flags, "
          "evaluates the stub text with only the names it provides and tests every value the program reported against its position's "
-         "annotation with the reference conformance oracle."),
+         "annotation with the reference conformance oracle. For TypedDict-free emitted types - which is every emitted type at the default "
+         "size limit 0 (default_limit_noTD, via rewriters keep TypedDict-freeness) - the theorem reaches the stub text: the rendered, "
+         "module-stripped annotation evaluated in a namespace where its names denote what was rendered admits every observed value "
+         "(pipeline_text_sound, default_pipeline_text_sound, through C11.rendered_denotes_partial)."),
    ref="DESIGN.md section 4 C01",
-   note=("partial: rendering/evaluation of the text is observed (C11 RenderedDenotes is stated, not proved); hypotheses of pipeline_sound: values "
+   note=("partial: for types with generated TypedDict classes (k > 0) rendering/evaluation of the text is observed (C11 RenderedDenotes); hypotheses of pipeline_sound: values "
          "well-formed, types storable (classes importable under their own names); histories below the query limit. One open finding "
          "shared with C11 (generated class-name collision)"),
    technique="Lean 4 proof (composition of the C04/C05/C07/C08/C13 theorems) + end-to-end differential runs of the real tracer, store and CLI against a ground-truth recorder"),
